@@ -300,6 +300,8 @@ pub struct GenCfg {
     pub max_alts: usize,
     pub max_toks: usize,
     pub allow_hyphen: bool,
+    /// mostly one token per alternative (sides that must parse on their own)
+    pub few_toks: bool,
 }
 
 impl GenCfg {
@@ -315,6 +317,7 @@ impl GenCfg {
             max_alts: 3,
             max_toks: 3,
             allow_hyphen: true,
+            few_toks: false,
         }
     }
 }
@@ -428,7 +431,9 @@ pub fn simples(cfg: &GenCfg) -> BoxedStrategy<Alt> {
     let lo = if cfg.allow_empty_alt { 0 } else { 1 };
     let mx = cfg.max_toks;
     let c = cfg.clone();
-    let size = if lo == 0 {
+    let size = if cfg.few_toks {
+        prop_oneof![4 => Just(1usize), 1 => Just(2usize)].boxed()
+    } else if lo == 0 {
         prop_oneof![1 => Just(0usize), 12 => 1usize..=mx].boxed()
     } else {
         (1usize..=mx).boxed()
